@@ -19,6 +19,7 @@ import (
 	"encoding/json"
 	"fmt"
 	"strings"
+	"sync"
 	"time"
 
 	"github.com/attestantio/go-block-relay/services/blockauctioneer"
@@ -361,6 +362,9 @@ func (s *Service) unblindProposal(ctx context.Context,
 	// as failed even if they are just running a little slow, which isn't a useful thing to do.  Instead, we use a
 	// semaphore to track if a signed block has been returned by any provider.
 	sem := semaphore.NewWeighted(1)
+	// The probe below acquires and releases the semaphore; serialise the probes so that one provider's
+	// goroutine does not mistake another's momentary hold for a block having been received.
+	var semMu sync.Mutex
 
 	respCh := make(chan *api.VersionedSignedProposal, 1)
 	for _, provider := range providers {
@@ -384,13 +388,16 @@ func (s *Service) unblindProposal(ctx context.Context,
 					},
 				})
 
+				semMu.Lock()
 				if !sem.TryAcquire(1) {
+					semMu.Unlock()
 					// We failed to acquire the semaphore, which means another relay has responded already.
 					// As such, we can leave without going any further.
 					log.Trace().Msg("Another relay has already responded")
 					return
 				}
 				sem.Release(1)
+				semMu.Unlock()
 
 				if err != nil {
 					log.Debug().Err(err).Int("retries", retries).Msg("Failed to unblind block")
@@ -415,7 +422,9 @@ func (s *Service) unblindProposal(ctx context.Context,
 			log.Trace().Msg("Unblinded block")
 			// Acquire the semaphore to confirm that a block has been received.
 			// Use TryAcquire in case two providers return the block at the same time.
+			semMu.Lock()
 			sem.TryAcquire(1)
+			semMu.Unlock()
 			ch <- signedProposalResponse.Data
 		}(ctx, provider, respCh)
 	}
